@@ -94,7 +94,9 @@ def write_replay(prop, name, src, header):
 
 def run_replay(path, timeout=300):
     try:
-        r = subprocess.run([VENV_PY, path], capture_output=True, text=True, timeout=timeout, cwd=HERE, env=dict(os.environ, PYTHONPATH=HERE))
+        # the replay imports funsor from the tree the obligations were generated from (VERIF_REPO is a helper override)
+        repo = os.environ.get("VERIF_REPO", "/repo")
+        r = subprocess.run([VENV_PY, path], capture_output=True, text=True, timeout=timeout, cwd=HERE, env=dict(os.environ, PYTHONPATH=repo + os.pathsep + HERE))
         return r.returncode, (r.stdout + r.stderr)[-3000:]
     except subprocess.TimeoutExpired:
         return 2, "replay timed out"
